@@ -57,7 +57,7 @@ COMPONENTS = {
     "stub": ["file system (SimFS)", "raw byte stream (SimRaw)", "process exit (SystemExit trap)",
              "time (step clock on Base.__new__ + wall watchdog)"],
 }
-PROBES = ["deep_nest_with_damaged_closer", "file_changed_between_opens", "include_dimension", "focused_single_token_fault", "decode_handler_fired", "short_read_split_multibyte", "trunc_inside_literal",
+PROBES = ["deep_nest_with_damaged_closer", "file_changed_between_opens", "include_dimension", "focused_single_token_fault", "table_driven_intrinsic_reference", "decode_handler_fired", "short_read_split_multibyte", "trunc_inside_literal",
           "trunc_inside_continuation", "trunc_inside_directive", "system_exit_trapped",
           "eio_on_second_open", "eio_on_first_open", "cli_damaged_first", "cli_damaged_middle",
           "cli_damaged_last", "outcome_tree", "outcome_syntax", "faultfree_compared"]
@@ -365,11 +365,57 @@ def _nest_case(sw, case):
     return case
 
 
+TABLE_NAMES_PER_RUN = 8
+
+
+def _table_names():
+    """Every intrinsic name in the tables of the parser under test (both standards), read from
+    the classes without creating a parser: a name added to one table but not to the table it
+    refers to only shows when that very name is parsed."""
+    names = set()
+    try:
+        from fparser.two.Fortran2003 import Intrinsic_Name as I03
+        names.update(I03.function_names)
+    except Exception:  # pragma: no cover - layout of the tree under test changed
+        pass
+    try:
+        from fparser.two.Fortran2008.intrinsics_f08 import Intrinsic_Name as I08
+        names.update(I08.function_names)
+    except Exception:  # pragma: no cover
+        pass
+    return sorted(n.lower() for n in names)
+
+
+def _table_batch(cfg, case):
+    """One table-driven run: TABLE_NAMES_PER_RUN names of the enumeration, each referenced with
+    0..4 arguments under both standards, undamaged (executed like a focused batch)."""
+    names = _table_names()
+    k = cfg.get("index", 0) // 30
+    start = (cfg.get("batch_seed", 0) * 7 + k * TABLE_NAMES_PER_RUN) % max(1, len(names))
+    batch = []
+    for j in range(TABLE_NAMES_PER_RUN):
+        if not names:
+            break
+        name = names[(start + j) % len(names)]
+        for argc in range(5):
+            args = ", ".join(["a", "b", "1", "x"][:argc])
+            text = ("subroutine zz(u)\nreal :: x\nx = %s(%s)\nend subroutine zz\n" % (name, args))
+            for std in ("f2003", "f2008"):
+                batch.append({"std": std, "text": _l1(text.encode("utf-8")),
+                              "mutations": [{"kind": "table_intrinsic_name", "changed": False,
+                                             "name": name, "argc": argc}]})
+    case.update({"mode": "focus_batch", "batch": batch, "std": "mixed", "opts": {},
+                 "mutations": [], "table_driven": True})
+    return case
+
+
 def generate(run_seed, cfg):
     st = rng.Streams(run_seed)
     sw = st("swarm")
     if cfg.get("index", 0) % 3 == 2:
         return _focused_batch(run_seed, cfg, {"prop": ID})
+    if cfg.get("index", 0) % 30 == 13:
+        return _table_batch(cfg, {"prop": ID})
     if cfg.get("index", 0) % 30 == 7:
         return _nest_case(sw, {"prop": ID})
     std = sw.choice(["f2003", "f2008"])
@@ -718,7 +764,8 @@ def _execute_focus_batch(case, stats, events, violations, state_keys, probe, vio
             outcome, _, exc = fp.parse_with(parser, fp.make_reader(
                 "string", text, {"ignore_comments": True}))
             events.append(["focus", sub, fp.outcome_digest(outcome), clock.count])
-            probe("focused_single_token_fault")
+            probe("table_driven_intrinsic_reference" if case.get("table_driven")
+                  else "focused_single_token_fault")
             detail = {"sub": sub, "text": text, "std": one["std"]}
             if outcome[0] == "ok":
                 probe("outcome_tree")
